@@ -41,6 +41,18 @@ CHECKS = {
         "and 200-1000 event values by random generation; known finding C04-kemn-key is suppressed only for documents containing "
         "such a key; " + TRUST,
    technique="TLA+ model (MapAccess.tla) checked by TLC + TLC trace validation of recorded calls against MapAccess!Conf / Faults"),
+ "C07": dict(
+   category="model_checking",
+   text="Budget.tla defines the eight counted quantities as an independent count over the observed stream (raw parser events "
+        "plus the expansion of every alias, an alias and its replay being one node) and the set of quantities that exceed "
+        "first; MC_Budget checks the enforcer machine (observe per raw and per replayed event, per-document reset, the "
+        "iterator's skip_to_next_document) against it on every stream up to a bound; every recorded call of from_str, "
+        "from_multiple, check_yaml_budget and read with limits = usage / usage-1 / unlimited and the ratio rule at its "
+        "thresholds is decided by the TLA+ trace validator from the raw events saphyr-parser gives for the text.",
+   design_ref="DESIGN.md section 4 C07",
+   note="bounded: streams of <= 2 documents up to 10/11 events exhaustively, random streams of <= 3 documents beyond; the events "
+        "threshold is not exercised for the streaming iterator (the stream-end marker is counted against the last document); " + TRUST,
+   technique="TLA+ model (Budget.tla, MC_Budget.tla) checked by TLC + TLC trace validation of recorded budgeted calls against Budget!Usage / FirstExceeded"),
 }
 
 NOT_YET = "check not built yet (work in progress); it will be claimed once its TLA+ model and conformance harness are registered"
